@@ -734,6 +734,9 @@ deriving instance DecidableEq for Except
 deriving instance DecidableEq for Ts.Pes.PtsDts
 deriving instance DecidableEq for Ts.App.BeginInfo
 deriving instance DecidableEq for Ts.App.Ev
+deriving instance DecidableEq for Ts.App.Cfg
+deriving instance DecidableEq for Ts.App.Ctx
+deriving instance DecidableEq for Ts.App.Handler
 
 section data
 open Ts.Spec.PesMux
@@ -775,6 +778,17 @@ def exBi (o : Nat) : BeginInfo := ⟨0xe0, 0, 1, some (.error .fieldNotPresent),
 
 /-- the state after PAT and PMT have been processed -/
 def exState : R (Tab Handler × Ctx) := runApp { bypassCrc := true } [exPat ++ exPmt2]
+
+/-- `exState`, spelled out: PAT handler on PID 0, PMT handler on PID 0x20, PES filters tagged 2 and 3
+on PIDs 0x21 and 0x22; four tags handed out -/
+def exTab0 : Tab Handler :=
+  some (.pat { lastVersion := some 0 } [0x20]) :: List.replicate 31 none ++
+    [some (.pmt 0x20 1 { lastVersion := some 0 } [0x21, 0x22]), some (.pes 2 {}), some (.pes 3 {})]
+
+def exCtx0 : Ctx :=
+  { cfg := { bypassCrc := true }, nextTag := 4,
+    trace := [.construct (.stream 0x20 0x0F 0x22 0x21 [] []) 3, .construct (.stream 0x20 0x1B 0x21 0x21 [] []) 2,
+              .construct (.pmt 0x20 1) 1, .construct (.byPid 0) 0] }
 
 /-- the PMT again with `version_number = 1`: both streams are re-announced -/
 def exPmt2v1 : Bytes := pad [0x47, 0x40, 0x20, 0x11, 0x00,
